@@ -8,6 +8,8 @@ import FloVerif.Driver.C06
 import FloVerif.Driver.C04
 import FloVerif.Driver.C18
 import FloVerif.Driver.C17
+import FloVerif.Driver.C16
+import FloVerif.Driver.C07
 /-!
 `fvdriver`: reads correspondence transcripts (`<prop> <op> <stream> <inputs…> | <impl outputs…>`) on stdin,
 evaluates the model on the same inputs and prints one `DIFF …` line per disagreement and a `SUMMARY` line.
@@ -28,8 +30,12 @@ def dispatch (prop op stream : String) (ins outs : List String) : List C05.Out :
       { field := o.field, cmp := if o.ok then .same 0 else .diff o.msg, fbit := none }
   | "C17" => (C17.handle op ins outs).map fun o =>
       { field := o.field, cmp := if o.ok then .same 0 else .diff o.msg, fbit := none }
+  | "C07" => (C07.handle op ins outs).map fun o =>
+      { field := o.field, cmp := if o.ok then .same 0 else .diff o.msg, fbit := none }
   | "C18" => (C18.handle op ins outs).map fun o =>
       { field := o.field, cmp := if o.ok then .same 0 else .diff o.msg, fbit := none }
+  | "C16" => (C16.handle op ins outs).map fun o =>
+      { field := o.field, cmp := if o.ok then .same 0 else .diff o.msg, fbit := some o.ok }
   | _ => [{ field := "unknown-property " ++ prop, cmp := .diff "driver does not know this property", fbit := none }]
 
 def upd (m : List (String × Stat)) (k : String) (f : Stat → Stat) : List (String × Stat) :=
